@@ -625,7 +625,12 @@ func (x *Exec) specCallExpr(env *SpecEnv, e *SExpr) Value {
 	return nil
 }
 
+// errIs is errors.Is(e, target).  Sentinels (small constant ids, created by
+// errors.New) and nil wrap nothing.
 func errIs(e, target *Term) *Term {
+	if e.Op == "int" {
+		return Eq(e, target)
+	}
 	return Or(Eq(e, target), App("wraps", SBool, e, target))
 }
 
